@@ -11,7 +11,9 @@ RULE = ("operation sequences (push / try-pop / pop with a finished context) over
         "(pop result '-' with a non-empty queue, or ids/exec/hold/none filter used); distinct by op lines")
 TRUSTED_BASE = [
     "modelled, not verified: protocol/v2/ssv/queue/{queue.go,message_prioritizer.go,messages.go}; "
-    "the two filters of Validator.ConsumeQueue are re-implemented in the driver",
+    "the two filters of Validator.ConsumeQueue are re-implemented in the driver for the direct queue runs; the 'consumer' runs "
+    "execute the real Validator.ConsumeQueue (hook VerifNewConsumerValidator, stub duty runner) and compare the hand-over order "
+    "with pops under the state and filter it has to derive from the runner",
     "hook protocol/v2/ssv/queue/verif_hooks.go (lastRead setter) decides whether Pop reads the inbox first",
 ]
 ASSUMPTIONS = [
@@ -27,10 +29,12 @@ def runs(tier, seed):
         r = [("exhaustive", ["exhaustive"]), ("prior", ["prior"])]
         r += [("gen%d" % i, ["gen", "-seed", str(seed * 1000 + i), "-n", "4000"]) for i in range(12)]
         r += [("concurrent", ["concurrent", "-seed", str(seed), "-n", "300"])]
+        r += [("consumer%d" % i, ["consumer", "-seed", str(seed * 10 + i), "-n", "1500"]) for i in range(4)]
         return r
     return [("prior", ["prior"]), ("exhaustive", ["exhaustive"]),
             ("gen", ["gen", "-seed", str(seed), "-n", "1500"]),
-            ("concurrent", ["concurrent", "-seed", str(seed), "-n", "30"])]
+            ("concurrent", ["concurrent", "-seed", str(seed), "-n", "30"]),
+            ("consumer", ["consumer", "-seed", str(seed), "-n", "300"])]
 
 
 def search_runs(tier, seed):
